@@ -604,8 +604,12 @@ class HyperParameters:
         for hp in self.space:
             if self.is_active(hp):
                 if hp.name not in self.values:
-                    self.values[hp.name] = hp.random_sample()
+                    # Not `hp.random_sample()`: an unseeded draw would make
+                    # the search irreproducible.
+                    self.values[hp.name] = hp.default
             else:
+                # Another entry of the same name (declared under different
+                # conditions) may be active and own the value.
                 self.values.pop(hp.name, None)
 
     @classmethod
